@@ -676,16 +676,20 @@ def _is_gather_of(e, f: Func, fld: str) -> bool:
 
 # ---------------------------------------------------------------------------------------------- R3
 class _TypeErrorEscape(Client):
-    """state = (is the probed value orderable against the content?, constant returned by the last inlined call)
+    """state = (is the probed value orderable against the content?, constant returned by the last inlined call,
+                is the storage empty?  None = not tested yet)
 
     The first comparison site forks: either the value is orderable (no comparison of this probe raises) or it is
     not (every comparison raises TypeError).  Constant return values (``return False`` in a handler) refine the
     membership test that inlined the callee, so `if value not in self: raise KeyError` is followed precisely.
+    A test of the storage's emptiness (`not self.values`, `len(self.values) == 0`) is remembered along the path (until the storage
+    is changed): an empty storage is bisected without a single comparison, so no TypeError arises there.
     """
 
-    def __init__(self, prog):
+    def __init__(self, prog, storages=()):
         self.P = prog
         self.sites = 0
+        self.storages = set(storages)
 
     def should_inline(self, func, call, ctx):
         return True
@@ -695,8 +699,22 @@ class _TypeErrorEscape(Client):
             return "bisect"
         return None
 
+    def _empty_test(self, test, ctx):
+        """True: `test` holds iff the storage is empty; False: iff it is non-empty; None: something else"""
+        t = test
+        if isinstance(t, ast.Attribute) and ctx.scope.is_self(t.value) and t.attr in self.storages:
+            return False
+        if isinstance(t, ast.Compare) and len(t.ops) == 1 and isinstance(t.left, ast.Call) and src(t.left.func) == "len" and t.left.args \
+                and isinstance(t.left.args[0], ast.Attribute) and ctx.scope.is_self(t.left.args[0].value) \
+                and t.left.args[0].attr in self.storages and const_value(t.comparators[0], None) == 0:
+            if isinstance(t.ops[0], (ast.Eq, ast.LtE)):
+                return True
+            if isinstance(t.ops[0], (ast.NotEq, ast.Gt)):
+                return False
+        return None
+
     def refine(self, test, state, ctx):
-        orderable, ret = state
+        orderable, ret, empty = state
         if isinstance(test, ast.UnaryOp) and isinstance(test.op, ast.Not):
             t, f = self.refine(test.operand, state, ctx)
             return f, t
@@ -704,19 +722,35 @@ class _TypeErrorEscape(Client):
                 and isinstance(ret, bool) and ctx.scope.is_self(test.comparators[0]):
             truth = ret if isinstance(test.ops[0], ast.In) else not ret
             return ((state,), ()) if truth else ((), (state,))
+        et = self._empty_test(test, ctx)
+        if et is not None:
+            if empty is None:
+                yes, no = (orderable, ret, et), (orderable, ret, not et)       # test true <=> empty == et
+                return (yes,), (no,)
+            return ((state,), ()) if empty == et else ((), (state,))
         return (state,), (state,)
 
     def event(self, kind, node, state, ctx):
-        orderable, ret = state
+        orderable, ret, empty = state
         if kind == "stmt":
-            return ((orderable, None),)
+            return ((orderable, None, empty),)
         if kind == "return":
             v = node.value
-            return ((orderable, v.value if isinstance(v, ast.Constant) and isinstance(v.value, bool) else None),)
+            return ((orderable, v.value if isinstance(v, ast.Constant) and isinstance(v.value, bool) else None, empty),)
+        if kind in ("call", "store", "del", "aug") and empty is not None:
+            # the storage changes: what was known about its emptiness is gone
+            tgt = node.func.value if kind == "call" and isinstance(node, ast.Call) and isinstance(node.func, ast.Attribute) else node
+            while isinstance(tgt, ast.Subscript):
+                tgt = tgt.value
+            if isinstance(tgt, ast.Attribute) and ctx.scope.is_self(tgt.value) and tgt.attr in self.storages \
+                    and (kind != "call" or node.func.attr in ("insert", "append", "pop", "remove", "clear", "extend", "sort")):
+                return ((orderable, ret, None),)
         if kind == "bisect":
             self.sites += 1
+            if empty is True:
+                return (state,)                    # no element to compare with: no comparison, no TypeError
             if orderable is None:
-                return (("yes", ret), RaiseExc(("no", ret), "TypeError"))
+                return (("yes", ret, empty), RaiseExc(("no", ret, empty), "TypeError"))
             if orderable == "no":
                 return (RaiseExc(state, "TypeError"),)
         return (state,)
@@ -735,9 +769,9 @@ def r3_unorderable(prog, rep: Report, sf: SortedFacts):
                 rep.unrec("C09.R3", (c.relpath, c.short, c.node.lineno), f"probe:{name}", "entry point not resolvable")
                 continue
             rep.fn(f)
-            client = _TypeErrorEscape(prog)
+            client = _TypeErrorEscape(prog, {x for x in (sf.key_storage[c.qual], sf.value_storage(c)) if x})
             it = Interp(prog, client)
-            ex = it.run(f, {(None, None)}, c)
+            ex = it.run(f, {(None, None, None)}, c)
             where = (c.relpath, f"{c.short}.{name}", f.node.lineno if not f.cls.is_external else c.node.lineno)
             if client.sites == 0:
                 rep.unrec("C09.R3", where, f"probe:{name}", "the entry point never reaches the bisect comparison site")
